@@ -33,7 +33,7 @@ def run(scn: Dict[str, Any]) -> ClockRun:
     cfg = scn["config"]
     out = ClockRun()
     out.tz = cfg.get("tz") or "UTC"
-    with SimContext(cfg.get("sched", 0), cfg["epoch0"], cfg.get("tz"), tick_ns=cfg.get("tick_ns", 0)) as ctx:
+    with SimContext(cfg.get("sched", 0), cfg["epoch0"], cfg.get("tz"), tick_ns=cfg.get("tick_ns", 0), tz_form=cfg.get("tz_form")) as ctx:
         sim = ctx.sim
         out.sim = sim
         for st in scn["steps"]:
